@@ -98,7 +98,9 @@ def pass_binding_demo(ctx):
     r, behs = worlds.generate("W3", 4, limit=300)
     dump = os.path.join(vlib.WORK, f"pass-demo-{os.getpid()}.ndjson")
     worlds.replay(behs, variants=["shared"], pass_dump=dump)
-    lines = [json.loads(l) for l in open(dump)]
+    import shutil
+    shutil.copy(dump, dump + ".full")
+    lines = [e for e in (json.loads(l) for l in open(dump)) if e["ev"] in worlds.PASS_EVENTS]
     os.remove(dump)
     for e in lines:
         if e["ev"] == "Event" and e["known"]:
@@ -114,3 +116,20 @@ def pass_binding_demo(ctx):
     if verdict in ("accepted", "error"):
         raise vlib.ToolError("binding demo: a bookkeeping trace with a flipped `known` verdict was not rejected")
     ctx.cov["binding_demos"].append({"corrupted_trace": "Event.known flipped in the reloader's bookkeeping events", "verdict": verdict})
+    # the thread automaton: an answer given before the pass it stands for has ended must be rejected
+    full = [json.loads(l) for l in open(dump + ".full")]
+    os.remove(dump + ".full")
+    for i in range(1, len(full)):
+        if full[i]["ev"] == "Notify" and full[i - 1]["ev"] == "PassEnd":
+            full[i - 1], full[i] = full[i], full[i - 1]
+            break
+    else:
+        raise vlib.ToolError("binding demo: no PassEnd/Notify pair in the recorded thread trace")
+    with open(dump, "w") as f:
+        for e in full:
+            f.write(json.dumps(e) + "\n")
+    verdict, tr, detail = vlib.trace_check("Trace_Thread", "Trace_Thread.cfg", dump, name="thread-demo")
+    os.remove(dump)
+    if verdict in ("accepted", "error"):
+        raise vlib.ToolError("binding demo: a thread trace whose answer precedes the end of its pass was not rejected")
+    ctx.cov["binding_demos"].append({"corrupted_trace": "Notify moved before the PassEnd of the pass it answers", "verdict": verdict})
